@@ -16,6 +16,7 @@ Decided:
     while BARs are sized), each path from such a write to a return - error returns included - passes through a later
     write of the command register (the restore); B1's model decides the values for bar_info, B6 the shape for any
     caller that brackets a whole scan.
+ B7 header types: From<u8> of the header-type enum maps 0/1/2 to the standard / PCI-bridge / CardBus-bridge variants.
  B5 bus walk: one iteration of the bus iterator's loop is path-enumerated (paths end at the loop back edge or at a
     return) and folded into a transition function over (device, function, function-present?); the transition is then
     iterated from (0,0) over its whole finite state space: with nothing present the probes are exactly (d,f) for d in
@@ -134,6 +135,7 @@ def run(F, R):
     b5_bus_walk(F, R)
     b5b_walk_start(F, R)
     b6_restore_on_every_exit(F, R)
+    b7_header_types(F, R)
 
 
 def b1_b2(F, R, b):
@@ -361,6 +363,52 @@ def header_type_name(F, code):
             if len(hit) == 1 and hit[0].ret and hit[0].ret[0] == 'agg':
                 return hit[0].ret[1].rsplit('::', 1)[1]
     return None
+
+
+HEADER_KINDS = (('cardbus', 2), ('bridge', 1), ('standard', 0), ('normal', 0), ('general', 0))
+
+
+def b7_header_types(F, R):
+    """Header-type codes (PCI 3.0 6.1: 0 standard, 1 PCI-to-PCI bridge, 2 CardBus bridge) decode to the variant of that meaning;
+    the variants are recognised by their names (cardbus / bridge / standard), every other code to a variant that carries it."""
+    n = 0
+    for b in F.bodies.values():
+        if not (b.get('impl_trait') == 'core::convert::From' and b['name'] == 'from' and F.handwritten(b) and b['id'].find('transport::pci') >= 0
+                and b['arg_count'] == 1 and b['locals'][1]['ty'] == 'u8'):
+            continue
+        e = F.adts.get(b['locals'][0]['ty'])
+        if not e or e['kind'] != 'enum':
+            continue
+        kinds = {}
+        for v in e['variants']:
+            if v['fields']:
+                continue
+            for key, code in HEADER_KINDS:
+                if key in v['name'].lower():
+                    kinds[v['name']] = code
+                    break
+        if len(kinds) < 3 or sorted(kinds.values()) != [0, 1, 2]:
+            continue      # not a header-type enum with recognisable variant names
+        n += 1
+        bad = None
+        for code in (0, 1, 2, 3, 4, 0x7f):
+            got = header_type_name(F, code)
+            want = [k for k, c in kinds.items() if c == code]
+            if got is None:
+                bad = 'code %#x: conversion not foldable' % code
+                break
+            if want and got != want[0]:
+                bad = 'header type %#x decodes to %s, PCI defines it as %s' % (code, got, want[0])
+                break
+            if not want and got in kinds:
+                bad = 'undefined header type %#x decodes to %s' % (code, got)
+                break
+        if bad and 'not foldable' in bad:
+            R.abstain('B7', b['id'], bad, fn_site(F, b['id']))
+            continue
+        R.check(bad is None, 'B7', 'header-types', fn_site(F, b['id']), 'codes 0/1/2 decode to standard / PCI bridge / CardBus bridge, others to none of them',
+                'header type decoding: %s' % bad)
+    R.count('header_type_tables', n)
 
 
 def b6_restore_on_every_exit(F, R):
